@@ -16,14 +16,17 @@ Proof. rewrite firstn_app, Nat.sub_diag, firstn_all. cbn [firstn]. apply app_nil
 Lemma skipn_len_app {A} (a b : list A) : skipn (length a) (a ++ b) = b.
 Proof. rewrite skipn_app, Nat.sub_diag, skipn_all. reflexivity. Qed.
 
-Lemma wf_bytes_firstn k l : wf_bytes l -> wf_bytes (firstn k l).
+Lemma wf_bytes_firstn k : forall l, wf_bytes l -> wf_bytes (firstn k l).
 Proof.
-  unfold wf_bytes. rewrite !Forall_forall. intros H x Hx. apply H. eapply firstn_In. exact Hx.
+  induction k as [|k IH]; intros l H; [constructor|].
+  destruct l as [|x l]; [constructor|]. inversion H; subst. cbn [firstn]. constructor; [assumption|].
+  apply IH. assumption.
 Qed.
 
-Lemma wf_bytes_skipn k l : wf_bytes l -> wf_bytes (skipn k l).
+Lemma wf_bytes_skipn k : forall l, wf_bytes l -> wf_bytes (skipn k l).
 Proof.
-  unfold wf_bytes. rewrite !Forall_forall. intros H x Hx. apply H. eapply skipn_In. exact Hx.
+  induction k as [|k IH]; intros l H; [exact H|].
+  destruct l as [|x l]; [constructor|]. inversion H; subst. cbn [skipn]. apply IH. assumption.
 Qed.
 
 Lemma unbe_bound l : wf_bytes l -> unbe l < 256 ^ N.of_nat (length l).
@@ -91,9 +94,11 @@ Proof.
   unfold wf_msgb, wf_msg. rewrite !andb_true_iff, !N.ltb_lt, Nat.leb_le, wf_bytesb_spec, eqb_true_iff.
   rewrite forallb_forall, Forall_forall.
   split.
-  - intros [[[[[[H1 H2] H3] H4] H5] H6] H7]. repeat split; try assumption.
+  - intros [[[[[[H1 H2] H3] H4] H5] H6] H7].
+    split; [exact H1|]. split; [exact H2|]. split; [exact H3|]. split; [|tauto].
     intros x Hx. apply wf_hintb_spec, H4, Hx.
-  - intros (H1 & H2 & H3 & H4 & H5 & H6 & H7). repeat split; try assumption.
+  - intros (H1 & H2 & H3 & H4 & H5 & H6 & H7).
+    split; [|exact H7]. split; [|exact H6]. split; [|exact H5]. split; [tauto|].
     intros x Hx. apply wf_hintb_spec, H4, Hx.
 Qed.
 
@@ -121,7 +126,8 @@ Proof.
   inversion Hwf as [|? ? (Ht & Hl & Hd) Hwt]; subst.
   cbn [encode_hints decode_hints app]. rewrite <- app_assoc.
   replace (blen (h_data h) mod 256) with (blen (h_data h)) by lia.
-  unfold blen at 1 2. rewrite Nnat.Nat2N.id.
+  assert (Hnat : N.to_nat (blen (h_data h)) = length (h_data h)) by (unfold blen; lia).
+  rewrite !Hnat.
   destruct (Nat.ltb_spec (length (h_data h ++ encode_hints t ++ rest)) (length (h_data h))) as [C|_];
     [rewrite app_length in C; lia|].
   rewrite firstn_len_app, skipn_len_app.
@@ -191,10 +197,13 @@ Proof.
   unfold encode_msg, decode_head, len_field. cbn [app]. rewrite <- !app_assoc.
   unfold LEN_MOD in *.
   rewrite take_be_app by (rewrite pow_256_3; lia).
-  f_equal. f_equal; [f_equal; [f_equal|]|]; lia.
+  set (L := blen (encode_hints (m_hints m)) + blen (m_body m)) in *.
+  replace ((m_flags m mod 16 * 1048576 + L mod 1048576) / 1048576) with (m_flags m) by lia.
+  replace ((m_flags m mod 16 * 1048576 + L mod 1048576) mod 1048576) with L by lia.
+  reflexivity.
 Qed.
 
-Lemma has_h_mk hs : has_h (if is_nil hs then 0 else 8) = negb (is_nil hs).
+Lemma has_h_mk {A} (hs : list A) : has_h (if is_nil hs then 0 else 8) = negb (is_nil hs).
 Proof. destruct hs; reflexivity. Qed.
 
 Theorem decode_msg_encode m rest :
@@ -202,8 +211,10 @@ Theorem decode_msg_encode m rest :
 Proof.
   intros Hb. apply wf_msgb_spec in Hb. pose proof Hb as (Ht & Hf & Hh & Hws & Hn & Hbd & Hl).
   unfold decode_msg. rewrite (decode_head_encode m rest Hb).
-  rewrite <- blen_app. unfold blen at 1 2. rewrite !Nnat.Nat2N.id.
-  rewrite app_assoc.
+  rewrite <- blen_app.
+  assert (Hnat : N.to_nat (blen (encode_hints (m_hints m) ++ m_body m))
+                 = length (encode_hints (m_hints m) ++ m_body m)) by (unfold blen; lia).
+  rewrite !Hnat. rewrite app_assoc.
   destruct (Nat.ltb_spec (length ((encode_hints (m_hints m) ++ m_body m) ++ rest))
                          (length (encode_hints (m_hints m) ++ m_body m))) as [C|_];
     [rewrite app_length in C; lia|].
@@ -231,16 +242,15 @@ Qed.
     20-bit field (known finding).  2^20 zero octets as a bundle PDU. *)
 Theorem declared_len_refuted :
   exists d, wf_bytesb d = true
-            /\ declared_len (encode_msg (mk_bundle d)) = Some 0
             /\ blen d = 1048576
-            /\ decode_frame (encode_frame (mkFrame [mk_bundle d] [])) <> Some (mkFrame [mk_bundle d] []).
+            /\ declared_len (encode_msg (mk_bundle d)) = Some 0
+            /\ option_map (fun f => (map (fun m => blen (m_body m)) (f_msgs f), blen (f_pad f)))
+                          (decode_frame (encode_frame (mkFrame [mk_bundle d] [])))
+               = Some ([0], 1048576).
 Proof.
   exists (repeat 0 (N.to_nat 1048576)).
-  split; [vm_compute; reflexivity|]. split; [vm_compute; reflexivity|]. split; [vm_compute; reflexivity|].
-  intros E.
-  assert (F : option_map (fun f => length (f_msgs f)) (decode_frame (encode_frame (mkFrame [mk_bundle (repeat 0 (N.to_nat 1048576))] [])))
-              = Some 1%nat) by (rewrite E; reflexivity).
-  vm_compute in F. discriminate.
+  split; [vm_compute; reflexivity|]. split; [vm_compute; reflexivity|].
+  split; [vm_compute; reflexivity|]. vm_compute; reflexivity.
 Qed.
 
 Lemma decode_msg_inv bs m rest :
@@ -281,7 +291,7 @@ Proof.
       cbn [app]. rewrite <- !app_assoc. rewrite Hsplit, <- Hr0. reflexivity.
     + unfold wf_msg. cbn [m_type m_flags m_hints m_body encode_hints is_nil negb length]. unfold LEN_MOD.
       change (blen []) with 0. rewrite N.add_0_l, Hbl, Hh.
-      repeat split; try assumption; try lia. constructor. unfold MAX_LIST. lia.
+      repeat split; try assumption; try (unfold MAX_LIST; lia); constructor.
 Qed.
 
 (** * Frames *)
@@ -296,11 +306,13 @@ Proof.
   unfold wf_frameb, wf_frame, wf_padb.
   rewrite !andb_true_iff, Nat.leb_le, wf_bytesb_spec, forallb_forall, Forall_forall.
   split.
-  - intros [[H1 H2] [H3 H4]]. repeat split; try assumption.
-    + apply wf_msgb_spec. specialize (H1 x H). apply andb_true_iff in H1. tauto.
-    + specialize (H1 x H). apply andb_true_iff in H1 as [_ H1]. apply negb_true_iff in H1. lia.
+  - intros [[H1 H2] [H3 H4]].
+    split; [|split; [exact H2|split; [|exact H4]]].
+    + intros x Hx. specialize (H1 x Hx). apply andb_true_iff in H1 as [Ha Hb].
+      split; [apply wf_msgb_spec, Ha|]. apply negb_true_iff in Hb. lia.
     + destruct (f_pad f); [trivial|lia].
-  - intros (H1 & H2 & H3 & H4). repeat split; try assumption.
+  - intros (H1 & H2 & H3 & H4).
+    split; [split; [|exact H2]|split; [|exact H4]].
     + intros x Hx. destruct (H1 x Hx) as [Ha Hb]. apply andb_true_iff. split.
       * apply wf_msgb_spec, Ha.
       * apply negb_true_iff. lia.
